@@ -733,16 +733,17 @@ def verify(cmds, ctx=None):
 
 
 def well_formed(cmds):
-    """Conditionals properly nested, at most one ELSE per IF (the quantifier of the property)."""
+    """Conditionals properly nested: every ELSE / ENDIF inside an open IF, every IF closed.  Several ELSEs in one IF
+    are properly nested (consensus toggles execution at each; Core's script_tests.json: "Multiple ELSE's are valid")."""
     elses = []
     for c in cmds:
         if isinstance(c, int):
             if c in (OP_IF, OP_NOTIF):
                 elses.append(0)
             elif c == OP_ELSE:
-                if not elses or elses[-1]:
+                if not elses:
                     return False
-                elses[-1] = 1
+                elses[-1] += 1
             elif c == OP_ENDIF:
                 if not elses:
                     return False
@@ -979,6 +980,9 @@ def selfcheck():
     prog([b"\x80", OP_IF, OP_0, OP_ELSE, OP_1, OP_ENDIF], True)       # negative zero is false in IF
     prog([OP_1, OP_IF, OP_0, OP_IF, OP_RETURN, OP_ELSE, OP_3, OP_ENDIF, OP_ELSE, OP_RETURN, OP_ENDIF], True)
     prog([OP_0, OP_IF, OP_IF, OP_RETURN, OP_ELSE, OP_RETURN, OP_ENDIF, OP_ELSE, OP_5, OP_ENDIF], True)   # nested IF in a dead branch reads nothing
+    prog([OP_1, OP_IF, OP_0, OP_ELSE, OP_0, OP_ELSE, OP_1, OP_ENDIF], True)    # script_tests.json: multiple ELSEs toggle
+    prog([OP_0, OP_IF, OP_0, OP_ELSE, OP_0, OP_ELSE, OP_1, OP_ENDIF], False)
+    prog([OP_1, OP_IF, OP_1, OP_ELSE, OP_ELSE, OP_ENDIF], True)
     prog([OP_0, OP_IF, OP_RESERVED, OP_ENDIF, OP_1], True)            # unexecuted bad opcode is fine
     prog([OP_0, OP_IF, OP_VERIF, OP_ENDIF, OP_1], False)              # ... but VERIF is not
     prog([OP_IF, OP_1, OP_ENDIF], False)                              # IF on an empty stack
@@ -1001,6 +1005,6 @@ def selfcheck():
     prog([OP_1] + [OP_NOP] * 202, False)                              # > 201 non-push opcodes
     ok, st, al = run([OP_1, OP_2, OP_TOALTSTACK])
     assert (ok, st, al) == (True, [b"\x01"], [b"\x02"])
-    assert well_formed([OP_IF, OP_IF, OP_ELSE, OP_ENDIF, OP_ELSE, OP_ENDIF]) and not well_formed([OP_IF, OP_ELSE, OP_ELSE, OP_ENDIF])
+    assert well_formed([OP_IF, OP_IF, OP_ELSE, OP_ENDIF, OP_ELSE, OP_ENDIF]) and well_formed([OP_IF, OP_ELSE, OP_ELSE, OP_ENDIF]) and not well_formed([OP_ELSE, OP_IF, OP_ENDIF])
     assert not well_formed([OP_IF]) and not well_formed([OP_ENDIF])
     return True
